@@ -212,6 +212,24 @@ def build_cases(seed, tier):
             ims = [m.replace("async ", "") for m in ims]
         item = "pub trait Td%d { %s }\npub struct Ty;\n#[entrait(%s)]\nimpl TdImpl%d for Ty { %s }" % (i, " ".join(tms), "ref" if dyn else "", i, " ".join(ims))
         cases.append(CCase(attr, item, "F4" if lt else None, "impl"))
+    # modules mixing by-value and by-reference receivers, in every order (the `Send` requirement on the application type must not
+    # depend on the order of the functions; with an async by-value function a missing `Send` is a compile error)
+    for oi, order in enumerate([("v", "r"), ("r", "v"), ("r", "v", "r"), ("v", "r", "r"), ("v", "v", "r")]):
+        for asy in ("", "async "):
+            fns = []
+            for j, kind in enumerate(order):
+                if kind == "v":
+                    fns.append("pub %sfn g%d<D: A>(deps: D, x: i32) -> i32 { unimplemented!() }" % (asy, j))
+                else:
+                    fns.append("pub %sfn g%d(deps: &impl B, y: String) { unimplemented!() }" % (rng.choice(["", "async "]), j))
+            cases.append(CCase("pub MO%d%s" % (oi, "a" if asy else "s"), "pub mod m { use super::*; " + " ".join(fns) + " }", None, "mod_receiver_order"))
+    # regression programs: witnesses of repaired findings (F4: impl-block lifetime on `__impl`, static and dynamic; F5: by-value
+    # concrete dependency, sync and async; by-value method of an entraited trait)
+    cases.append(CCase("TdImplR0, delegate_by = SelR0", "pub trait TdR0 { fn m0<'a>(&'a self, x: &'a i32) -> &'a i32; }\npub struct Ty;\n#[entrait()]\nimpl TdImplR0 for Ty { fn m0<'a, D: A>(deps: &'a D, x: &'a i32) -> &'a i32 { unimplemented!() } }", None, "regression"))
+    cases.append(CCase("TdImplR1, delegate_by = ref", "pub trait TdR1 { fn m0<'a>(&'a self, x: &'a i32) -> &'a i32; }\npub struct Ty;\n#[entrait(ref)]\nimpl TdImplR1 for Ty { fn m0<'a, D: A>(deps: &'a D, x: &'a i32) -> &'a i32 { unimplemented!() } }", None, "regression"))
+    cases.append(CCase("TrR2", "fn f(deps: G<i32>, a: i32) -> i32 { unimplemented!() }", None, "regression"))
+    cases.append(CCase("TrR3", "async fn f(deps: G<i32>, a: i32) -> i32 { unimplemented!() }", None, "regression"))
+    cases.append(CCase("", "pub trait TqR4 { fn m(self, x: i32) -> i32; fn r(&self) -> i32; }", None, "regression"))
     # the compile-level witnesses of /verif/known_findings.json, always part of the probe
     kf = json.load(open(os.path.join(VERIF, "known_findings.json")))
     for f in kf["findings"]:
